@@ -839,6 +839,8 @@ class MemoryPathIO(AbstractPathIO):
             snode = self.get_node(source)
             if None in (snode, dparent):
                 raise FileNotFoundError
+            if dparent.type != "dir":
+                raise NotADirectoryError
             if self._absolute(source) in self._absolute(destination).parents:
                 raise OSError("Can not move path into itself")
             for i, node in enumerate(sparent.content):
